@@ -21,13 +21,13 @@ import (
 // WriterCfg is one batching / mode configuration = one child process (the writer keeps its
 // services in package-level maps).
 type WriterCfg struct {
-	DBTimer            float64 `json:"db_timer"`  // seconds
-	DBBulk             int     `json:"db_bulk"`   // bytes, 0 = no size trigger
+	DBTimer            float64 `json:"db_timer"` // seconds
+	DBBulk             int     `json:"db_bulk"`  // bytes, 0 = no size trigger
 	ChannelsSample     int     `json:"ch_sample"`
 	ChannelsTimeSeries int     `json:"ch_ts"`
 	RetryAttempts      int     `json:"retry"`
 	ClusterName        string  `json:"cluster"`
-	Bernstein          bool    `json:"bernstein"` // optional 32-bit fingerprint type (default: CityHash)
+	Bernstein          bool    `json:"bernstein"`    // optional 32-bit fingerprint type (default: CityHash)
 	CacheTTLms         int     `json:"cache_ttl_ms"` // 0 = the writer's own 30 min cache
 }
 
